@@ -114,11 +114,12 @@ def many_runs(prop, batch, seeds):
     return {'results': out}
 
 
-def same_violation(res, prop, rule):
-    return any(v['property'] == prop and v['rule'] == rule for v in res.get('violations') or [])
+def same_violation(res, prop, rule, sig=None):
+    return any(v['property'] == prop and v['rule'] == rule and (sig is None or v['signature'] == sig)
+               for v in res.get('violations') or [])
 
 
-def shrink(prop, batch, choices, vprop, rule, max_runs=600, max_wall=75.0):
+def shrink(prop, batch, choices, vprop, rule, sig=None, max_runs=400, max_wall=45.0):
     """delta debugging on the choice list; 0 is the boring value"""
     t0 = time.monotonic()
     runs = [0]
@@ -128,7 +129,7 @@ def shrink(prop, batch, choices, vprop, rule, max_runs=600, max_wall=75.0):
             return False
         runs[0] += 1
         res = run_in_child(lambda: one_run(prop, batch, choices=cand), timeout=30)
-        return same_violation(res, vprop, rule)
+        return same_violation(res, vprop, rule, sig)
 
     best = list(choices)
     # 1. truncate the tail
@@ -177,7 +178,7 @@ def shrink(prop, batch, choices, vprop, rule, max_runs=600, max_wall=75.0):
             else:
                 break
     final = run_in_child(lambda: one_run(prop, batch, choices=best, keep_choices=True), timeout=30)
-    if not same_violation(final, vprop, rule):
+    if not same_violation(final, vprop, rule, sig):
         best = list(choices)
         final = run_in_child(lambda: one_run(prop, batch, choices=best, keep_choices=True), timeout=30)
     return {'choices': best, 'result': final, 'shrink_runs': runs[0]}
@@ -202,7 +203,7 @@ def main():
                 if w not in warmed:
                     importlib.import_module(w).warmup()
                     warmed.add(w)
-                res = shrink(s['prop'], s['batch'], s['choices'], s['property'], s['rule'])
+                res = shrink(s['prop'], s['batch'], s['choices'], s['property'], s['rule'], s.get('signature'))
             else:
                 w = reg.PROPS[job['prop']]['batches'][job['batch']]['world']
                 if w not in warmed:
